@@ -122,6 +122,47 @@ pub fn run(tier: &str) -> i32 {
         false,
         json!({"max_n": max_n, "worker_counts_with_a_defect": bad_n}),
     );
+    // large worker counts, structured: around every power of two, every power of ten and a few products, where
+    // f32 rounding of (i+1)/n changes character
+    {
+        let mut ns: Vec<u32> = vec![];
+        let kmax = if thorough { 22 } else { 20 };
+        let spread: i64 = if thorough { 32 } else { 6 };
+        for k in 16..=kmax {
+            for d in -spread..=spread {
+                ns.push(((1i64 << k) + d) as u32);
+            }
+        }
+        for base in [100_000u32, 250_000, 500_000, 1_000_000, 1_048_575, 1_234_567, 2_000_000, 3_000_000] {
+            if base <= (1u32 << kmax) {
+                for d in [0i64, 1, -1, 7] {
+                    ns.push((base as i64 + d) as u32);
+                }
+            }
+        }
+        // beyond 2^24 an f32 cannot count workers one by one any more
+        for huge in [1u32 << 21, 1 << 22, 1 << 23, (1 << 24) - 1, 1 << 24, (1 << 24) + 1, (1 << 24) + (1 << 16), 17_000_000, 20_000_000, 1 << 25] {
+            ns.push(huge);
+        }
+        ns.retain(|n| *n > max_n);
+        ns.sort();
+        ns.dedup();
+        let outs = par_map(ns.len(), |i| {
+            let n = ns[i];
+            match catch(move || scope::calculate_scopes(n)) {
+                Err(e) => (Some((0usize, format!("panic: {}", e))), 0u64),
+                Ok(s) => (check_list(n, &s), s.len() as u64),
+            }
+        });
+        let mut seen = 0u64;
+        for (i, (bad, k)) in outs.into_iter().enumerate() {
+            seen += k;
+            if let Some((sc, d)) = bad {
+                rep.violation(Violation { key: format!("n={} scope={}", ns[i], sc), sub: "large-n".into(), case: json!({"n": ns[i]}), expected: json!("a valid tiling"), observed: json!(d) });
+            }
+        }
+        rep.sub("large-n", "worker counts beyond the dense range: 2^k + d for k = 16..=20 (22 in thorough), |d| <= 6 (32), values around 10^5, 2.5*10^5, 5*10^5, 10^6, ..., and 2^21, 2^22, 2^23, 2^24 +- 1, 2^24 + 2^16, 1.7*10^7, 2*10^7, 2^25: the same list checks", seen, ns.len() as u64, false, json!({"worker_counts": ns.len(), "largest": ns.last()}));
+    }
     rep.sample(json!({"n": 4, "scopes": scope::calculate_scopes(4).iter().map(|s| json!([[s.turn_from, s.river_from], [s.turn_to, s.river_to]])).collect::<Vec<_>>()}));
     rep.sample(json!({"n": 17, "scope_11": {"to": [scope::calculate_scopes(17)[11].turn_to, scope::calculate_scopes(17)[11].river_to]}}));
 
